@@ -182,7 +182,48 @@ pub fn exec_case(run: RunFn, data: &CaseData, exh: u32, thorough: bool, want_des
     (v, ctx)
 }
 
+/// Rendering of a case without executing it: the case runs up to its `ctx.describe` call and is left there. Used to
+/// describe a failing case whose execution is expensive (a hang) or may not fail again (a race).
+pub fn describe_case(run: RunFn, data: &CaseData, exh: u32, thorough: bool) -> String {
+    let mut ctx = Ctx::new(true);
+    ctx.exh = exh;
+    ctx.thorough = thorough;
+    DESCRIBE_ONLY.with(|d| d.set(true));
+    let _ = std::panic::catch_unwind(std::panic::AssertUnwindSafe(|| match data {
+        CaseData::Bytes(b) => {
+            let mut s = Src::bytes(b);
+            let _ = run(&mut s, &mut ctx);
+        }
+        CaseData::Choices(c) => {
+            let mut s = Src::choices(c);
+            let _ = run(&mut s, &mut ctx);
+        }
+    }));
+    DESCRIBE_ONLY.with(|d| d.set(false));
+    ctx.desc.unwrap_or_default()
+}
+
 static SLOT_COUNTER: AtomicU64 = AtomicU64::new(0);
+
+/// set by the first worker of a part that records a failure: the other workers of that part stop searching
+static PART_FAILED: std::sync::atomic::AtomicBool = std::sync::atomic::AtomicBool::new(false);
+
+thread_local! {
+    /// the slot record this worker published for the case in flight
+    static LAST_PUBLISHED: RefCell<Option<(std::fs::File, Vec<u8>)>> = const { RefCell::new(None) };
+}
+
+/// A case made of several separately judged calls (a ladder of growing inputs) tells the monitor between two calls
+/// that it is alive: the watchdog then applies to each call, as the statement's per-input watchdog does.
+pub fn heartbeat() {
+    LAST_PUBLISHED.with(|l| {
+        if let Some((f, buf)) = l.borrow_mut().as_mut() {
+            let c = SLOT_COUNTER.fetch_add(1, Ordering::Relaxed) + 1;
+            buf[..8].copy_from_slice(&c.to_le_bytes());
+            let _ = f.write_at(buf, 0);
+        }
+    });
+}
 
 struct Slot {
     file: Option<std::fs::File>,
@@ -222,9 +263,11 @@ impl Slot {
                 }
             }
             let _ = f.write_at(&buf, 0);
+            LAST_PUBLISHED.with(|l| *l.borrow_mut() = f.try_clone().ok().map(|fc| (fc, buf)));
         }
     }
     fn idle(&self) {
+        LAST_PUBLISHED.with(|l| *l.borrow_mut() = None);
         if let Some(f) = &self.file {
             let _ = f.write_at(&0u64.to_le_bytes(), 0);
         }
@@ -311,6 +354,9 @@ fn random_worker(
     let first_fail: RefCell<Option<(Vec<u8>, String, String, String)>> = RefCell::new(None);
     let res = runner.run(&strat, |b| {
         let counting = !*failed.borrow();
+        if counting && PART_FAILED.load(Ordering::Relaxed) {
+            return Ok(());
+        }
         if !counting {
             // shrinking: bound the time spent
             let mut d = shrink_deadline.borrow_mut();
@@ -342,11 +388,12 @@ fn random_worker(
                     if first_fail.borrow().is_none() {
                         if let CaseData::Bytes(b) = &data {
                             // describe it now: a schedule-dependent failure may not come back
-                            let (_, c2) = exec_case(part.run, &data, 0, env.thorough, true, false);
-                            *first_fail.borrow_mut() = Some((b.clone(), sig.clone(), detail.clone(), c2.desc.unwrap_or_default()));
+                            let d = describe_case(part.run, &data, 0, env.thorough);
+                            *first_fail.borrow_mut() = Some((b.clone(), sig.clone(), detail.clone(), d));
                         }
                     }
                     *failed.borrow_mut() = true;
+                    PART_FAILED.store(true, Ordering::Relaxed);
                     Err(TestCaseError::fail(sig))
                 }
             }
@@ -422,6 +469,9 @@ fn exhaustive_worker(
     let mut n_mine = 0u64;
     let mut fail = None;
     loop {
+        if PART_FAILED.load(Ordering::Relaxed) {
+            break;
+        }
         // ownership of this leaf by (c0, c1)
         let data = CaseData::Choices(choices.clone());
         // run once to learn bounds (cheap generators; execution happens regardless)
@@ -462,15 +512,9 @@ fn exhaustive_worker(
                 if let Some(id) = is_known(&env.findings, &sig) {
                     *stats.known_hits.entry(id).or_default() += 1;
                 } else {
-                    let (_, c2) = exec_case(part.run, &data, param, env.thorough, true, false);
-                    fail = Some(Failure {
-                        part: part.name,
-                        data,
-                        exh: param,
-                        sig,
-                        detail,
-                        desc: c2.desc.unwrap_or_default(),
-                    });
+                    PART_FAILED.store(true, Ordering::Relaxed);
+                    let desc = describe_case(part.run, &data, param, env.thorough);
+                    fail = Some(Failure { part: part.name, data, exh: param, sig, detail, desc });
                     break;
                 }
             }
@@ -739,6 +783,7 @@ pub fn run_property(prop: &Property, thorough: bool, seed: u64, rep: &mut Report
     let mut health_fail = false;
     for (pi, part) in prop.parts.iter().enumerate() {
         let b = budget_of(part, thorough);
+        PART_FAILED.store(false, Ordering::Relaxed);
         let nthreads = std::env::var("VERIF_THREADS").ok().and_then(|s| s.parse().ok()).unwrap_or(16usize);
         let tp = Instant::now();
         let (stats, fail) = match b {
